@@ -21,6 +21,8 @@ def gen_purge(ctx, name, sample_num=None, exact_only=False, late=False):
     d = {'"purge.ndjson"': '"%s"' % out}
     if late:
         d["Late = FALSE"] = "Late = TRUE"
+    if exact_only:
+        d["ExactOnly = FALSE"] = "ExactOnly = TRUE"
     if sample_num:
         d["Sample = FALSE"] = "Sample = TRUE"
         g = vlib.run_tlc(ctx, "Gen_Purge.tla", "Gen_Purge.cfg", workers=1, timeout=1800, defines=d,
